@@ -2,7 +2,7 @@
     probability 1/l (Merlin / Blake2b as PRFs) and is TRUSTED; what is proved is that no two slots read
     the same source, and that the seed-derivation key is injective. *)
 From Coq Require Import List Arith NArith Bool String.
-From BP Require Import Model.Codec Model.Verifier Model.Nonce Proofs.NonceP.
+From BP Require Import Base.Field Model.Codec Model.Verifier Model.Prover Model.Nonce Proofs.NonceP Proofs.CompleteP Proofs.SeedP.
 Import ListNotations.
 
 (** all 2T*rounds + 3T + 2 slots of a proof (alpha_k, dL_jk, dR_jk, r, s, d_k, eta_k) read pairwise distinct
@@ -37,3 +37,11 @@ Proof. exact nlabel_string_injective. Qed.
 Print Assumptions C13_persona_injective.
 
 Example C13_ex_slot_count : List.length (all_slots 2 3) = 20%nat. Proof. reflexivity. Qed.
+
+(** the assignment of sources to slots always yields nonces of the shape the completeness theorem
+    (C01_completeness) and the recovery theorem (C09) take as premise: T components each, one pair of
+    vectors per round — with or without a seed, whatever the oracles return *)
+Theorem C13_assigned_nonces_well_formed : forall (K : Fld) (seed_nonce : nlabel -> option nat -> nat -> K) (rng : nat -> list K) seeded T rounds,
+  wf_nonces K T rounds (assign K seed_nonce rng seeded T rounds).
+Proof. exact assign_wf. Qed.
+Print Assumptions C13_assigned_nonces_well_formed.
